@@ -7,24 +7,30 @@ import shutil
 import tempfile
 import threading
 import time
+import traceback
 
 from hypothesis import strategies as st
 
 from .. import gen, ops, ref
-from ..ctx import Result, Viol, reset_globals
+from ..ctx import Failure, HarnessError, Result, Viol, product_frame, reset_globals
 
 LEVEL = "exploration"
 WORKERS = {"quick": 8, "thorough": 16}
 BUDGET_S = {"quick": 45, "thorough": 650}
 RULE = (
     "Two generated halves. PURE: an entry set {key tuple -> oid} (nested keys over a name pool with "
-    "sort-sensitive names such as 'a', 'a.dir', 'a b', 'a!', non-ASCII, quotes), per-entry Meta variants, a "
+    "sort-sensitive names such as 'a', 'a.dir', 'a b', 'a!', non-ASCII, quotes; a tenth of the leaf names "
+    "and a ninth of the directory parts are awkward-but-legal for the stored JSON form: names that are not valid UTF-8 as "
+    "Python represents them (lone surrogates U+DC80..U+DCFF from surrogateescape: Latin-1 / Shift-JIS / truncated "
+    "UTF-8 / arbitrary bytes), C0 controls, quote, backslash and literal backslash-u text, DEL/C1, U+2028/9, BOM, "
+    "U+FFFD/U+FFFF, the code points next to the surrogate block, astral characters), per-entry Meta variants, a "
     "hash name (md5, md5-dos2unix, sha256), an insertion permutation (Fisher-Yates from drawn ints, optional "
     "duplicate adds) and one mutation (rename, re-hash, add, drop, swap, push-down). Oracle: as_bytes / "
     "digest of the permuted tree == the independent encoder vd.ref.ref_tree_bytes + hashlib; other metadata => same bytes and oid (also digest(with_meta=True)); "
     "the mutated set serialises to different bytes/oid and parsing the bytes with json gives back exactly the "
     "entry set (injectivity); from_list(as_list()) and the with_meta variant are the identity on the "
-    "serialised projection; Tree.load after odb.add returns the same listing and the stored bytes are the "
+    "serialised projection; Tree.load after odb.add accepts the listing the library wrote (never 'corrupted'), "
+    "returns the same listing, re-digests to the same id, and the stored bytes are the "
     "reference bytes; for every directory prefix get_obj == reference object of the re-rooted entries and "
     "filter keeps exactly the keys below it; file / absent prefixes behave as documented. HIST: a history on ONE "
     "Tree instance - drawn trie-backed reads (get_obj, filter, iteritems, as_trie, ls, shortest_prefix) interleaved "
@@ -39,7 +45,8 @@ RULE = (
     "id the model assigns it (its last digest; the source's id for filter/update_meta copies; the key for loaded "
     "trees) with hash_info == oid, list its own entries, equal a fresh rebuild + reference when it is clean, and "
     "every HashInfo key handed to load must be unchanged. "
-    "FS: a generated tree materialised twice in two drawn creation orders (second copy on tmpfs or on the "
+    "FS: a generated tree (in a third of the cases 1-3 files/directories carry awkward names as above; names that "
+    "are not valid UTF-8 only when no State is used) materialised twice in two drawn creation orders (second copy on tmpfs or on the "
     "disk temp dir), staged with build() under checksum_jobs in {None,1,2,8}, state none / cold+warm, optionally "
     "with the State already holding rows for the same unchanged files from a build / _get_hashes run under the "
     "OTHER md5 flavour, under sha256, or version-less DVC 2.x rows (CRLF text files are frequent), through an "
@@ -51,7 +58,8 @@ RULE = (
     "with the read size) and through _get_hashes(state=None) once with every file sequential and once pooled, "
     "and _get_hashes(large_file_threshold=small or huge, "
     "jobs, drawn per-file delays so the unordered pool really completes out of order). Oracle: every oid == "
-    "ref_tree_oid(hashlib manifest), staged listing bytes == reference bytes, _get_hashes maps each path to "
+    "ref_tree_oid(hashlib manifest), staged listing bytes == reference bytes, the staged listing stored with "
+    "odb.add and re-parsed with Tree.load is accepted and is the same listing / id, _get_hashes maps each path to "
     "its own hashlib digest; metamorphic: every whole-tree build of a case gives ONE id and every file ONE "
     "digest on all routings (where the legacy digest of a >1 MiB file is not pinned down, only this is asked). "
     "Non-trivial: pure = >=3 entries, >=1 nested key, permutation != identity; "
@@ -64,6 +72,15 @@ RULE = (
 )
 ASSUMPTIONS = [
     "key parts are non-empty, contain no '/' and no key is a prefix of another (a tree of files), as staging produces",
+    "names are what the OS layer / a cloud listing can hand out: any str without '/' and NUL whose only surrogates "
+    "are lone U+DC80..U+DCFF in the canonical surrogateescape form (os.fsdecode of bytes that are not UTF-8). Other "
+    "lone surrogates, or a high surrogate followed by a low one as two separate code units, are not produced by "
+    "any caller (JSON's escaped form cannot tell the latter from the astral character) and are not generated",
+    "filesystem half: names that are not valid UTF-8 are generated only for cases without a State: on the "
+    "unchanged tree State.save_many -> sqlite raises UnicodeEncodeError for such a path (no identifier is produced; "
+    "a robustness limit outside this property's statement, reported as an observation)",
+    "case files carry such names as JSON \\udcXX escapes (stdlib json, ensure_ascii) and every message is "
+    "backslash-escaped to ASCII before it leaves the module; replay is byte-for-byte deterministic",
     "vd.ref.ref_tree_bytes (hand-written serialiser, json used only for string escaping) and hashlib are the "
     "trusted reference",
     "the with_meta round trip passes hash_name and is limited to md5/md5-dos2unix (from_list(hash_name=...) reads "
@@ -84,6 +101,44 @@ HNAMES = ["md5", "md5", "md5", "md5-dos2unix", "sha256"]
 PNAMES = ["a", "a.dir", "a b", "a!", "a'b", 'a"b', "a-", "a0", "b", "B", "sub", "é", "文件", "z", "a\\b",
           "{b}", "100%", ".h", "~", "A", "dir", "x.y", "0", "Ünï", "a\tb", "a\nb", " ", "\x7f", "é"]
 OIDS = [hashlib.md5(bytes([i])).hexdigest() for i in range(6)]  # noqa: S324
+
+# Names that are legal file names / key parts but awkward for the stored JSON form of a listing.
+# SURR: names that are not valid UTF-8 on disk, as Python hands them out (os.fsdecode / os.listdir /
+# os.walk use surrogateescape: the undecodable byte 0xE9 of the Latin-1 name b"caf\xe9.txt" becomes the lone
+# surrogate U+DCE9). Latin-1, Shift-JIS, truncated UTF-8 sequences, CESU-style bytes.
+SURR = ["caf\udce9.txt", "\udcff", "a\udc80b", "\udce9\udce8", "\udc83e\udc83X", "na\udcefve", "\udcfe\udcff",
+        "z\udce9", "\udced\udca0\udc80", "\udcc3", "\udcc3(", "\udcf0\udc9f\udc98", "\udce9.dir", "\udce9 \udce9", "\U0001f600\udce9"]
+# ESC: characters a JSON writer must escape or that parsers/encoders are known to treat specially: C0 controls,
+# quote, backslash (also a literal backslash-u sequence), DEL/C1, U+2028/9, BOM, U+FFFD/U+FFFF, the code points
+# next to the surrogate block, astral characters (written as surrogate PAIRS by an ASCII-only writer)
+ESC = ["a\x01b", "\x1f", "a\rb", "\x08\x0c", "a\x1bz", 'a"', '"', "\\", "a\\", "\\u0041", "\\n", '\\"', "\\udce9",
+       "\u2028", "a\u2029b", "\x85", "\ufeffa", "\ufffd", "\uffff", "\ue000", "\ud7ff", "\x80", "\U0001f600",
+       "a\U00010000", "\U0010ffff", "e\u0301", "\x7f\x01"]
+AWK_CHARS = ["a", "b", ".", " ", "\udc80", "\udce9", "\udcff", "\udcc3", "\udca9", "\x01", "\x1f", '"', "\\", "\u2028",
+             "\ue000", "\ud7ff", "\U0001f600", "\U00010000", "\xe9", "u", "0"]
+AWK_DIRS = ["d\udce9", 'q"\\', "\U0001f4c1\x01"]
+
+
+def canon_name(s):
+    """The str a UTF-8 filesystem encoding gives back for the bytes of `s` (os.fsdecode(os.fsencode(s)) without
+    depending on the locale): adjacent escaped bytes that happen to form valid UTF-8 collapse to the character."""
+    return s.encode("utf-8", "surrogateescape").decode("utf-8", "surrogateescape")
+
+
+def has_surrogate(s):
+    return any(0xDC80 <= ord(c) <= 0xDCFF for c in s)
+
+
+def has_escape(s):
+    return any(ord(c) < 0x20 or c in '"\\\x7f\u2028\u2029' for c in s)
+
+
+def has_astral(s):
+    return any(ord(c) > 0xFFFF for c in s)
+
+
+def _ascii(s):
+    return str(s).encode("ascii", "backslashreplace").decode("ascii")
 
 
 # ------------------------------------------------------------------------------------------
@@ -109,11 +164,31 @@ def joined(e):
 # ------------------------------------------------------------------------------------------
 # generators
 # ------------------------------------------------------------------------------------------
+def _name_ok(s):
+    return bool(s) and "/" not in s and "\x00" not in s and s not in (".", "..", ".dvcignore")
+
+
+def awkward_names(surrogates=True):
+    """File names / key parts with lone surrogates (non-UTF-8 names), characters JSON must escape, astral
+    characters. Every name is in the canonical form a UTF-8 filesystem encoding round-trips."""
+    pools = [st.sampled_from(ESC)]
+    chars = AWK_CHARS if surrogates else [c for c in AWK_CHARS if not has_surrogate(c)]
+    pools.append(st.lists(st.sampled_from(chars), min_size=1, max_size=4).map("".join))
+    if surrogates:
+        pools += [st.sampled_from(SURR),
+                  # arbitrary bytes as a file name, decoded the way the OS layer does
+                  st.binary(min_size=1, max_size=4).map(lambda b: b.decode("utf-8", "surrogateescape"))]
+    out = st.one_of(*pools).map(canon_name).filter(_name_ok)
+    return out if surrogates else out.filter(lambda s: not has_surrogate(s))
+
+
 def pnames():
-    return st.one_of(st.sampled_from(PNAMES), st.sampled_from(PNAMES[:8]), gen.names())
+    usual = [st.sampled_from(PNAMES), st.sampled_from(PNAMES[:8]), gen.names()]
+    return st.one_of(*usual, *usual, *usual, awkward_names())  # one leaf name in ten is awkward
 
 
-DIRS = ["a", "a.dir", "sub", "é", "a b", "B", "a!", "z"]
+_DIRS = ["a", "a.dir", "sub", "é", "a b", "B", "a!", "z"]
+DIRS = [*_DIRS, *_DIRS, *_DIRS, *AWK_DIRS]  # one directory part in nine is awkward
 XOIDS = OIDS + [hashlib.md5(b"x%d" % i).hexdigest() for i in range(12)]  # noqa: S324
 
 
@@ -260,11 +335,49 @@ def legacy_big(draw):
 LEGACY_BIG = legacy_big()
 
 
+def rename_nodes(tree, renames):
+    """Give drawn nodes (files or directories, numbered in pre-order) of a nested case tree drawn names; a rename
+    that would collide with a sibling is skipped. Applied while the case is generated: the case holds the result."""
+    def count(t):
+        return sum(1 + (count(v) if isinstance(v, dict) else 0) for v in t.values())
+
+    total = count(tree)
+    todo = {}
+    for i, nm in renames:
+        todo.setdefault(i % total, nm)
+    n = -1
+
+    def rec(t):
+        nonlocal n
+        out = {}
+        for name, v in t.items():
+            n += 1
+            new = todo.get(n)
+            sub = rec(v) if isinstance(v, dict) else v
+            if new is not None and new not in t and new not in out:
+                name = new
+            out[name] = sub
+        return out
+
+    return rec(tree)
+
+
+FS_AWK = awkward_names()
+FS_AWK_UTF8 = awkward_names(surrogates=False)
+
+
 @st.composite
 def fs_cases(draw, thorough=False):
     tree = draw(gen.trees(max_files=16 if thorough else 8, max_depth=3, min_files=1, content=FS_CONTENT))
     big = draw(st.integers(0, 3 if thorough else 11)) == 0
     algo = draw(st.sampled_from(["md5", "md5", "md5", "md5", "md5-dos2unix", "sha256"]))
+    # a State is only combined with the md5 family (see ASSUMPTIONS)
+    state = draw(st.sampled_from(["none"] if algo == "sha256" else ["none", "state", "state", "state"]))
+    if draw(st.integers(0, 2)) == 0:
+        # awkward-but-legal names for some files / directories: characters JSON must escape, astral characters and,
+        # without a State (see ASSUMPTIONS), names that are not valid UTF-8 (lone surrogates after os.fsdecode)
+        tree = rename_nodes(tree, draw(st.lists(st.tuples(st.integers(0, 40), FS_AWK if state == "none" else FS_AWK_UTF8),
+                                                min_size=1, max_size=3)))
     extra = None
     if big and draw(st.booleans()):
         # legacy shapes: 1-3 MiB text files whose per-read CRLF handling depends on the read size (CR LF across
@@ -289,8 +402,6 @@ def fs_cases(draw, thorough=False):
             tree[draw(st.sampled_from(["sub", "a", "zzz", "-"]))] = {"x": draw(FS_CONTENT), "deep": {"d": draw(FS_CONTENT)}}
         if all(isinstance(v, dict) for v in tree.values()):
             tree[draw(st.sampled_from(["rootfile", "b", "~"]))] = draw(FS_CONTENT)
-    # a State is only combined with the md5 family (see ASSUMPTIONS)
-    states = ["none"] if algo == "sha256" else ["none", "state", "state", "state"]
     return {
         "kind": "fs",
         "algo": algo,
@@ -301,7 +412,7 @@ def fs_cases(draw, thorough=False):
         "disk": draw(st.integers(0, 3)) == 0,
         "jobs": draw(st.sampled_from([None, 1, 2, 8])),
         "jobs2": draw(st.sampled_from([None, 1, 2, 8])),
-        "state": draw(st.sampled_from(states)),
+        "state": state,
         # the State may already hold rows for the same unchanged files recorded under ANOTHER algorithm
         "prewarm": draw(st.sampled_from(PREWARM)),
         "touch": draw(st.lists(st.integers(0, 40), max_size=3)),
@@ -375,6 +486,31 @@ def mutate(entries, mut):
 
 def listing_of(tree):
     return {"/".join(k): (hi.name, hi.value) for k, _, hi in tree}
+
+
+def load_back(odb, key, viols, sig, what):
+    """Tree.load of a listing the library itself serialised and stored: it must parse (serialise -> re-parse is
+    the identity, so a listing written by as_bytes is never 'corrupted')."""
+    from dvc_data.hashfile.tree import Tree
+    from dvc_objects.errors import ObjectFormatError
+
+    try:
+        return Tree.load(odb, key)
+    except ObjectFormatError as exc:
+        viols.append(Viol(sig, f"{what}: the listing {key.value} written by as_bytes() and stored with odb.add cannot "
+                               f"be re-parsed: {_ascii(repr(exc))} (cause: {_ascii(repr(exc.__cause__))[:160]})"))
+        return None
+
+
+def name_classes(rels, half):
+    out = []
+    if any(has_surrogate(r) for r in rels):
+        out.append(f"{half}:name-not-utf8(lone-surrogate)")
+    if any(has_escape(r) for r in rels):
+        out.append(f"{half}:name-needs-json-escape")
+    if any(has_astral(r) for r in rels):
+        out.append(f"{half}:name-astral")
+    return out
 
 
 def run_pure(case, ctx):
@@ -463,9 +599,16 @@ def _run_pure(case, Tree):  # noqa: N803
     stored = odb.fs.cat_file(odb.oid_to_path(t.oid))
     if stored != want_bytes:
         viols.append(Viol("stored-bytes", "the stored directory object is not the reference listing"))
-    loaded = Tree.load(odb, t.hash_info)
-    if loaded.as_bytes() != b or listing_of(loaded) != listing_of(t) or loaded.oid != t.oid:
-        viols.append(Viol("load-roundtrip", "Tree.load after add returns a different listing"))
+    loaded = load_back(odb, t.hash_info, viols, "load-rejects-own-listing", "pure")
+    if loaded is not None:
+        if loaded.as_bytes() != b or listing_of(loaded) != listing_of(t) or loaded.oid != t.oid:
+            viols.append(Viol("load-roundtrip", "Tree.load after add returns a different listing"))
+        else:
+            # the re-parsed listing is the same entry set, hence has the same identifier
+            loaded.digest(name=algo)
+            if loaded.oid != want_oid:
+                viols.append(Viol("load-roundtrip-oid", f"re-digest of the re-parsed listing gives {loaded.oid}, "
+                                                        f"reference {want_oid}"))
 
     # prefixes
     prefixes = sorted({k[:d] for k in E for d in range(0, len(k))})
@@ -511,6 +654,7 @@ def _run_pure(case, Tree):  # noqa: N803
         classes.append("pure:relpath-order!=tuple-order")
     if any(not r.isascii() for r in J):
         classes.append("pure:non-ascii")
+    classes += name_classes(J, "pure")
     if len(prefixes) > 1:
         classes.append("pure:dir-prefixes")
     return Result(viols, len(E) >= 3 and nested and nonid, classes)
@@ -767,14 +911,21 @@ def run_live(case, ctx):
                 odb.add(ta.path, ta.fs, ta.oid)
                 key = HashInfo(algo, ra["id"])
                 keys.append((key, ra["id"]))
-                live.append({"t": Tree.load(odb, key), "E": dict(Ea), "id": ra["id"], "clean": True, "own": False,
-                             "how": "load"})
+                lt = load_back(odb, key, viols, "live:load-rejects-own-listing", f"step {n}")
+                if lt is None:
+                    break
+                live.append({"t": lt, "E": dict(Ea), "id": ra["id"], "clean": True, "own": False, "how": "load"})
                 shared = True
+                if any(has_surrogate(x) for k_ in Ea for x in k_):
+                    classes.append("live:loaded-name-not-utf8")
             elif op == "load_again" and room and keys:
                 key, v = keys[st_["b"] % len(keys)]
                 stored = json.loads(odb.fs.cat_file(odb.oid_to_path(v)))
                 E = {tuple(e["relpath"].split("/")): e[hkey(algo)] for e in stored}
-                live.append({"t": Tree.load(odb, key), "E": E, "id": v, "clean": True, "own": False, "how": "load"})
+                lt = load_back(odb, key, viols, "live:load-rejects-own-listing", f"step {n}")
+                if lt is None:
+                    break
+                live.append({"t": lt, "E": E, "id": v, "clean": True, "own": False, "how": "load"})
                 shared = True
             elif op == "add":
                 ks = sorted(Ea)
@@ -1116,6 +1267,22 @@ def run_fs(case, ctx):
                     viols.append(Viol("fs-get_obj-subdir-oid", f"get_obj({p}).oid {g.oid} != direct build of the "
                                                                f"sub-directory"))
 
+            # the staged listing, stored and re-parsed, is the same listing with the same id
+            if t1 is not None and not viols:
+                # stored under the id build() reported (for a non-md5 name t1.oid is still the md5-based one)
+                from dvc_data.hashfile.hash_info import HashInfo
+
+                hkey_ = HashInfo(t1.hash_info.name, t1.hash_info.value)
+                odb.add(t1.path, t1.fs, hkey_.value)
+                back = load_back(odb, hkey_, viols, "fs-load-rejects-own-listing", "build(cold)")
+                if back is not None:
+                    if back.as_bytes() != t1.as_bytes() or listing_of(back) != listing_of(t1):
+                        viols.append(Viol("fs-load-roundtrip", "Tree.load of the staged listing after odb.add returns "
+                                                               "a different listing"))
+                    elif want_bytes is not None and back.as_bytes() != want_bytes:
+                        viols.append(Viol("fs-load-roundtrip", "the re-parsed staged listing is not the reference"))
+                spy.phase()
+
             # metamorphic: one tree, one id - whatever the routing (pool / sequential / state hit / walk order)
             if len(set(tree_oids.values())) > 1:
                 viols.append(Viol("fs-oid-routing-dependent", f"the same tree got different ids: {tree_oids}"))
@@ -1133,6 +1300,7 @@ def run_fs(case, ctx):
 
     classes += ["fs:" + c for c in gen.tree_traits(case["tree"]) if c in ("nested", "depth>=3", "dup-content",
                                                                          "non-ascii-name", "odd-name")]
+    classes += name_classes(flat, "fs")
     if any(len(b) > MIB for b in flat.values()):
         classes.append("fs:has->1MiB-files")
     if pool_max >= 2:
@@ -1145,6 +1313,25 @@ def run_fs(case, ctx):
 
 # ------------------------------------------------------------------------------------------
 def run_case(case, ctx):
+    """Dispatch; names in a case may hold lone surrogates, which cannot be printed: every message that leaves this
+    module is made ASCII (backslash escapes) first."""
+    try:
+        res = _run_case(case, ctx)
+    except (Failure, HarnessError, KeyboardInterrupt):
+        raise
+    except Exception as exc:  # noqa: BLE001
+        fr = product_frame(exc)
+        if fr is None:
+            raise HarnessError("harness exception: "
+                               + _ascii("".join(traceback.format_exception(exc)))[-3000:]) from exc
+        res = Result([Viol(f"exc:{type(exc).__name__}:{fr[0]}:{fr[1]}",
+                           f"unexpected {type(exc).__name__}: {exc} (in {fr[0]}:{fr[1]})")])
+    for v in res.violations:
+        v.msg = _ascii(v.msg)
+    return res
+
+
+def _run_case(case, ctx):
     if case["kind"] == "pure":
         return run_pure(case, ctx)
     if case["kind"] == "hist":
